@@ -7,6 +7,8 @@ import Chrono.Model.Rfc2822
       (`DateTime::parse_from_rfc2822`; the error kind is not part of the comparison)
   * `r2.write <yof> <secs> <frac> <off>`  → `x<text>` | `panic`   (`DateTime::to_rfc2822`)
   * `r2.rt <yof> <secs> <frac> <off>`     → `parse_from_rfc2822(&to_rfc2822())` in the form of `r2.parse`
+  * `r2.item <yof> <secs> <frac> <off>`   → `x<text>` | `err` | `panic`
+      (`DateTime::format_with_items([Fixed::RFC2822])` written into a `String`; `err` = `fmt::Error`)
 -/
 namespace Chrono.Drv.Rfc2822
 open Chrono Chrono.M Chrono.Drv
@@ -30,6 +32,12 @@ def handle (op : String) (args : List String) : Option String :=
   | "r2.rt", [y, s, f, o] => some (match ints? [y, s, f, o] with
       | some [y, s, f, o] => (match Rfc2822.roundtrip ⟨⟨⟨y⟩, ⟨s, f⟩⟩, o⟩ with
           | .ok r => showRP r
+          | .panic => "panic")
+      | _ => bad)
+  | "r2.item", [y, s, f, o] => some (match ints? [y, s, f, o] with
+      | some [y, s, f, o] => (match Rfc2822.format_item_rfc2822 ⟨⟨⟨y⟩, ⟨s, f⟩⟩, o⟩ with
+          | .ok (some b) => hexEncode b
+          | .ok none => "err"
           | .panic => "panic")
       | _ => bad)
   | _, _ => none
